@@ -192,8 +192,33 @@ def h_resp(req: int, prog: List[Tuple[int, int]]):
     _body(req, prog)
 
 
+def _may_reach(tag, method, ver, inm, prog):
+    """Reach-twin steering only: a NECESSARY condition (from the model) for `tag`; paths that
+    cannot reach the tag skip the expensive pipeline so the twin finds its witness in time.
+    The tag itself is still raised after the real code ran."""
+    mo = model(method, inm, prog)
+    S, B = mo["status"], mo["body"]
+    if tag in ("rejected_body_with_204_304", "streamed_body_with_204_304"):
+        return S in (204, 304) and B != b"" and method != "HEAD" and not mo["etag304"]
+    if tag == "rejected_cl_mismatch":
+        return mo["cl"] is not None and mo["cl"] != len(B) and method != "HEAD" and S not in (204, 304)
+    if tag == "chunked":
+        return ver == 2 and mo["streamed"]
+    if tag == "close_delimited":
+        return ver != 2 and mo["streamed"]
+    if tag == "etag_304":
+        return mo["etag304"]
+    if tag == "head_no_body":
+        return method == "HEAD" and B != b""
+    if tag == "streamed_404":
+        return S == 404 and mo["streamed"] and B != b""
+    return True
+
+
 def _body(req, prog, pre=None):
     method, ver, inm, reqb = request_bytes(req)
+    if P.reach is not None and not _may_reach(P.reach, method, ver, inm, prog):
+        return
     with install() as env:
         app = rig.make_app(prog, pre_hook=pre)
         st = rig.serve(env, app, reqb + (rig.SECOND_REQ if P.second else b""))
@@ -226,6 +251,8 @@ def h_resp_prestate(req: int, s0: int, prog: List[Tuple[int, int]]):
     sc = rig.STATUS_POOL[s0]
     full = [(ST, s0)] + list(prog)
     method, ver, inm, reqb = request_bytes(req)
+    if P.reach is not None and not _may_reach(P.reach, method, ver, inm, full):
+        return
     with install() as env:
         app = rig.make_app(prog, pre_hook=lambda h: h.set_status(sc))
         st = rig.serve(env, app, reqb)
